@@ -391,6 +391,11 @@ func Returns(fn *ssa.Function) []*ssa.Return {
 	var out []*ssa.Return
 	Instrs(fn, func(in ssa.Instruction) {
 		if r, ok := in.(*ssa.Return); ok {
+			// the synthetic return of the recover block (functions with defers)
+			// is not a source-level exit
+			if fn.Recover != nil && r.Block() == fn.Recover {
+				return
+			}
 			out = append(out, r)
 		}
 	})
